@@ -921,7 +921,8 @@ def safety_oracle(ops, obs, cfg=None):
     configuration the run started with (a 'cfg' op replaces it; it takes effect at the next reset)."""
     bad = []
     ends = 0; aborted = False; sasl_acked = False; welcomed = False
-    answered = set()          # every capability the server ACKed or NAKed in this epoch
+    answered = set()          # every capability the server ACKed or NAKed during the negotiation of this epoch
+    srv_ack = set(); srv_nak = set()   # … ACKed / NAKed at any time in this epoch
     prev = obs[0]
     cfg_next = cfg; cfg_epoch = cfg; changed = False
     for op, o in zip(ops, obs[1:]):
@@ -932,7 +933,7 @@ def safety_oracle(ops, obs, cfg=None):
             prev = o
             continue
         if op[0] == 'reset':
-            ends = 0; aborted = False; sasl_acked = False; welcomed = False; answered = set()
+            ends = 0; aborted = False; sasl_acked = False; welcomed = False; answered = set(); srv_ack = set(); srv_nak = set()
             cfg_epoch = cfg_next
             if not changed and o.s.split('\t')[:13] != obs[0].s.split('\t')[:13]:
                 bad.append(('reset_fresh', 'after reset the observable state differs from a new Irc: %r vs %r' % (o.s, obs[0].s)))
@@ -964,6 +965,8 @@ def safety_oracle(ops, obs, cfg=None):
                         bad.append(('cap_end_once', 'CAP END sent from state %s' % prev.fsm))
                     if not (o.req <= (o.ack | o.nak)):
                         bad.append(('cap_end_outstanding', 'CAP END sent while %r is requested but neither ACKed nor NAKed' % sorted(o.req - o.ack - o.nak)))
+                if m.command == 'JOIN' and not o.after and not o.calls:
+                    bad.append(('join_needs_motd_end', 'JOIN %r queued although the end of the MOTD has not been handled (afterConnect unset, no abort; state %s)' % (m.args, o.fsm)))
                 if m.command == 'AUTHENTICATE':
                     if not sasl_acked:
                         bad.append(('sasl_after_ack', 'AUTHENTICATE %r sent although the server never acknowledged sasl' % (m.args,)))
@@ -984,6 +987,13 @@ def safety_oracle(ops, obs, cfg=None):
             if len(t) >= 4 and t[0] == 'CAP' and t[2] == 'LS' and t[3].startswith(':') and prev.fsm == 'INIT_CAP_NEGOTIATION':
                 if not o.calls and not any(m.command == 'CAP' and m.args[:1] in (('REQ',), ('END',)) for m in o.msgs):
                     bad.append(('progress', 'the final CAP LS %r was answered neither by CAP REQ nor by CAP END nor by an abort (state %s): the bot waits for something the server will not send' % (trigger, o.fsm)))
+            # the bot's record of the answers holds nothing the server did not say (a CAP DEL turns an ACK into a refusal)
+            if len(t) >= 4 and t[0].upper() == 'CAP' and t[2].upper() in ('ACK', 'NAK'):
+                m_ = parse_line(boot(), trigger)
+                if m_ is not None and len(m_.args) == 3:
+                    (srv_ack if m_.args[1].upper() == 'ACK' else srv_nak).update(m_.args[2].split())
+            if not (o.ack <= srv_ack) or not (o.nak <= (srv_nak | srv_ack)):
+                bad.append(('cap_sets', 'capabilities_ack=%r / capabilities_nak=%r hold names the server never acknowledged / refused (ACKed %r, NAKed %r)' % (sorted(o.ack), sorted(o.nak), sorted(srv_ack), sorted(srv_nak))))
             # once the server has answered every capability the bot requested (ACK or NAK, a later CAP DEL does not
             # take an answer back), the ACK / NAK that completes the answers ends the negotiation: CAP END, the SASL
             # exchange, or an abort
